@@ -263,7 +263,15 @@ fn execute(progs: &[Vec<String>], choices: &[usize], scheduled: bool, rng: &mut 
 /// One execution of concurrent make_ref programs (progs[t] = number of values thread t lends)
 /// through one shared instance.
 fn execute_chain(progs: &[Vec<String>], choices: &[usize], scheduled: bool, rng: &mut dyn FnMut() -> u64, random: bool) -> (Vec<Value>, Vec<usize>) {
-    let shared = Arc::new(Unimock::new(()));
+    // the lending method (tla/Chain.tla LentIds): responses 2901 x 1, then 2902, stored in the shared pattern
+    reset_id(2901);
+    reset_id(2902);
+    let lends = progs.iter().flatten().filter(|k| k.as_str() == "l").count();
+    let shared = Arc::new(if lends > 0 {
+        Unimock::new(UMock::b0.each_call(&matcher_labeled::<UMock::b0>("(lent)")).returns(Val::new(2901)).n_times(1).then().returns(Val::new(2902)))
+    } else {
+        Unimock::new(())
+    });
     let log: Log = Arc::new(Mutex::new(vec![]));
     let gate = Arc::new(std::sync::Barrier::new(progs.len()));
     let mut ids: Vec<u32> = vec![];
@@ -281,11 +289,20 @@ fn execute_chain(progs: &[Vec<String>], choices: &[usize], scheduled: bool, rng:
             ids.push(id);
             reset_id(id);
         }
+        let prog = prog.clone();
         bodies.push(Box::new(move || {
             let mut refs: Vec<(&Val, u32)> = vec![];
+            let mut lrefs: Vec<&Val> = vec![];
             for j in 1..=k {
                 let id = 3000 + (tid as u32 + 1) * 1000 + j;
                 yield_now("begin");
+                if prog[j as usize - 1] == "l" {
+                    log.lock().unwrap().push(json!({"ev": "lbegin", "t": tid + 1}));
+                    let r: &Val = u.b0(0);
+                    log.lock().unwrap().push(json!({"ev": "lent", "t": tid + 1, "read": r.id}));
+                    lrefs.push(r);
+                    continue;
+                }
                 log.lock().unwrap().push(json!({"ev": "push", "t": tid + 1, "id": id}));
                 let r: &Val = u.make_ref(Val::new(id));
                 log.lock().unwrap().push(json!({"ev": "got", "t": tid + 1, "id": id, "read": r.id}));
@@ -300,12 +317,19 @@ fn execute_chain(progs: &[Vec<String>], choices: &[usize], scheduled: bool, rng:
             gate.wait();
             let reads: Vec<u32> = refs.iter().map(|(r, _)| r.id).collect();
             log.lock().unwrap().push(json!({"ev": "reread", "t": tid + 1, "reads": reads}));
+            let lreads: Vec<u32> = lrefs.iter().map(|r| r.id).collect();
+            log.lock().unwrap().push(json!({"ev": "lreread", "t": tid + 1, "reads": lreads}));
+            drop(lrefs);
             drop(refs);
             drop(u);
         }));
     }
     let options = run_threads(bodies, choices, scheduled, rng, random);
     let mut ev = std::mem::take(&mut *log.lock().unwrap());
+    if lends > 0 {
+        ids.push(2901);
+        ids.push(2902);
+    }
     let before: Vec<u32> = ids.iter().copied().filter(|id| drops0(*id) > 0).collect();
     let last = Arc::try_unwrap(shared).ok().expect("harness: shared instance still referenced");
     let _ = catch_unwind(AssertUnwindSafe(move || drop(last)));
